@@ -42,6 +42,22 @@ def place (s : State) (id : Nat) : Place :=
 def withinCaps (xs : List Exec) : Bool :=
   decide (xs.length ≤ MaximumActions) && decide ((xs.map (·.gas)).sum ≤ MaximumQueueGas)
 
+/-- 06_begin_and_end_blocker.md "throttling limit": how many heads of the queue `ids` (front to
+back) fit one BeginBlock — at most `n` of them, and their stored gas limits, added to the `gas`
+already reserved in this block, stay within `MaximumQueueGas`; counting stops at the first that does
+not fit (the queue is first in, first out: nothing overtakes it).  `ProcessTriggers` must run exactly
+this many (`fail:stopped_early` when it runs fewer, `fail:cap_count` / `fail:cap_gas` when more). -/
+def fitCount (s : State) : List Nat → Nat → Nat → Nat
+  | [], _, _ => 0
+  | id :: rest, n, gas =>
+    if n = 0 then 0 else
+    let g := (s.gasLimits id).getD 0
+    if g + gas > MaximumQueueGas then 0 else 1 + fitCount s rest (n - 1) (gas + g)
+
+/-- The action handlers a BeginBlock invoked (one outcome per action it started: the completed ones
+and the one that failed, panicked or was cut off by the gas meter). -/
+def actionsRun (xs : List Exec) : Nat := (xs.map (·.outcomes.length)).sum
+
 /-- Gas consumed by the actions of one executed trigger that ran to their end (succeeded or returned
 an error; the action the gas meter cut off is not counted: what it did is rolled back and how far
 it got is not a consumption the creator can be charged beyond the limit).  `cost i` = gas action
